@@ -453,7 +453,7 @@ def class_info(ns, clsname, mode2D):
     """(merged defaults of the model, documented finals, violations of the class plumbing,
     class names along the MRO, multiple inheritance involved?)."""
     group, tier, defs = _UNIVERSE["group"], _UNIVERSE["tier"], _UNIVERSE["defs"]
-    key = (group, tier if group == "mi" else "", clsname, mode2D)
+    key = (group, tier if group != "base" else "", clsname, mode2D)
     if key in _CLASSINFO:
         return _CLASSINFO[key]
     cls = ns[clsname]
@@ -495,7 +495,11 @@ def class_info(ns, clsname, mode2D):
         if m is None or d is None or set(d.requiredProperties) != set(m.deps) or (prop in cls._finalProperties) != m.final:
             got = None if d is None else (sorted(d.requiredProperties), prop in cls._finalProperties)
             want = None if m is None else (sorted(m.deps), m.final)
-            problems.append((f"class-merge:{tag}:{prop}", f"class {clsname}({', '.join(defs[clsname].bases) if clsname in defs else ''}) (mode2D={mode2D}): merged default of {prop}: (dependencies, final) should be {want}, is {got}"))
+            kind = ""
+            if m is not None and d is not None and (prop in cls._finalProperties) == m.final:
+                miss, extra = set(m.deps) - set(d.requiredProperties), set(d.requiredProperties) - set(m.deps)
+                kind = ":missing-dependencies" if miss and not extra else ":spurious-dependencies" if extra and not miss else ":wrong-dependencies"
+            problems.append((f"class-merge:{tag}:{prop}{kind}", f"class {clsname}({', '.join(defs[clsname].bases) if clsname in defs else ''}) (mode2D={mode2D}): merged default of {prop}: (dependencies, final) should be {want} (the union over the declarations of {prop} along the MRO {user_mro}), is {got}"))
     for prop in sorted(finals):
         if prop in merged and not merged[prop].final:
             problems.append((f"class-final:{tag}:{prop}", f"class {clsname}: {prop} is documented as final but not declared so"))
@@ -849,11 +853,12 @@ def wants_text(cls, ms, index):
     return index % 24 == 0
 
 
-def wants_text_generated(ms, index):
-    """Class universes: `new K` of every class, and a fixed stride of the rest."""
+def wants_text_generated(ms, class_index, index):
+    """Class universes: a fixed stride of the enumeration (`new K` of every second class,
+    every 7th of the other multisets)."""
     if len(ms) == 0:
-        return True
-    return index % (4 if len(ms) == 1 else 16) == 0
+        return class_index % 2 == 0
+    return index % (7 if len(ms) == 1 else 17) == 0
 
 
 def compare_declaration_orders(defs, keep, mode2D, stats):
@@ -1023,16 +1028,18 @@ def chunks_generated(plan, size, tier):
     for group in ("chain", "mi"):
         defs = G.classdefs(group, tier)
         for mode2D in (False, True):
-            cur, weight, gi, last_family = [], 0, 0, None
+            cur, weight, gi, ci, last_family, last_cls = [], 0, 0, -1, None, None
             for g, cls, m2, ms in plan:
                 if g != group or m2 != mode2D:
                     continue
+                if cls != last_cls:
+                    ci, last_cls = ci + 1, cls
                 fam = defs[cls].family
                 if weight >= size and fam != last_family:
                     out.append((mode2D, group, tier, cur))
                     cur, weight = [], 0
                 last_family = fam
-                text = wants_text_generated(ms, gi)
+                text = wants_text_generated(ms, ci, gi)
                 gi += 1
                 n = len(G.permutations(ms)) if len(set(ms)) > 1 else 1
                 cur.append((cls, ms, text))
@@ -1047,7 +1054,8 @@ def run(ctx):
     plan = G.plan(ctx.tier)
     gplan = G.plan_generated(ctx.tier)
     items = chunks(plan, 700 if ctx.tier == "quick" else 4000, ctx.tier)
-    items += chunks_generated(gplan, 1200 if ctx.tier == "quick" else 6000, ctx.tier)
+    # (every chunk of a class universe defines the whole universe: one chunk each in quick)
+    items += chunks_generated(gplan, 10**9 if ctx.tier == "quick" else 6000, ctx.tier)
     items = ctx.rotate(items)
     # workers are forked: keep the collector from touching (and so copying) the parent's heap
     import gc
@@ -1173,6 +1181,8 @@ def replay(ctx, case):
         defs = G.classdefs(group, tier)
         fam = defs[case["cls"]].family
         cases = [(c.name, tuple(case["ms"]), case.get("text", False) and c.name == case["cls"]) for c in defs.values() if c.family == fam and c.instantiate]
-    stats, violations = run_chunk((case["mode2D"], group, tier, cases) + (({fam},) if group != "base" else ()))
+    # (the whole universe is defined again: what a class inherits may depend on which other
+    # classes were defined before it -- that is one of the things judged)
+    stats, violations = run_chunk((case["mode2D"], group, tier, cases))
     for sig, msg, c in violations:
         ctx.violation(sig, msg, c)
